@@ -9,14 +9,16 @@ MCZones == {[init |-> -5 * H, trans |-> <<[at |-> 7 * H, off |-> -4 * H], [at |-
 Grid(lo, hi, step) == {lo + k * step : k \in 0..((hi - lo) \div step)}
 MCInstants == Grid(-86400 - 6 * H, 86400 + 18 * H, 6 * H) \cup Grid(20 * 86400 - 12 * H, 20 * 86400 + 12 * H, 6 * H) \cup {7 * H - 1800, 7 * H, 19 * 86400 + 5 * H + 1800, -30 * 86400 + 3 * H}
 Dz(y, mo, w, d, h, mi, s) == Dur10(FromInt(y), FromInt(mo), FromInt(w), FromInt(d), FromInt(h), FromInt(mi), FromInt(s), Zero, Zero, Zero)
-MCDurs == {Dz(0, 0, 0, 0, 22, 59, 0), Dz(0, 0, 0, 0, 22, 10, 0),     \* just short of the end of a 23 h day: rounded up by 2 h they pass it
+MCDurs == {Dz(0, 0, 0, -6, -20, 0, 0), Dz(0, 0, 0, 6, 20, 0, 0),
+           Dz(0, 0, 0, 0, 22, 59, 0), Dz(0, 0, 0, 0, 22, 10, 0),     \* just short of the end of a 23 h day: rounded up by 2 h they pass it
            Dz(0, 0, 0, 1, 0, 0, 0), Dz(0, 0, 0, 0, 24, 0, 0), Dz(0, 0, 0, 0, 25, 0, 0), Dz(0, 0, 0, 1, 12, 0, 0), Dz(0, 0, 0, 0, 11, 30, 0), Dz(0, 0, 0, 0, 12, 30, 0),
            Dz(0, 1, 0, 0, 0, 0, 0), Dz(0, 0, 0, 20, 1, 29, 59), Dz(0, 0, 0, -1, 0, 0, 0), Dz(0, 0, 0, -1, -12, 0, 0), Dz(0, 0, 0, 0, -36, 0, 0), Dz(0, 0, 1, 3, 0, 0, 1),
            Dz(0, 0, 0, 0, 47, 59, 59), Dz(0, -1, 0, -15, 0, 0, 0), Dz(1, 0, 0, 0, 0, 0, 0), Dz(0, 0, 0, 0, 0, 0, 0), Dz(0, 0, 0, 0, 0, 90, 0), Dz(0, 0, 0, 1, 23, 30, 0), Dz(0, 0, 0, -1, -23, -30, 0), Dz(0, 0, 0, 19, 23, 30, 0)}
 Modes5 == {"halfExpand", "ceil", "floor", "trunc", "halfEven"}
 MCOpts == {[lg |-> lg, sm |-> sm, inc |-> inc, mode |-> m] : lg \in {"year", "month", "week", "day", "hour"}, sm \in {"month", "week", "day", "hour", "minute", "second", "nanosecond"},
                                                              inc \in {1, 2, 15}, m \in Modes5}
-QInstants == {5 * H,          \* local midnight of the 23 h day of the DST zone
+QInstants == {7 * 86400 + 6 * H + 1800,   \* 02:30 a week after the skipped 02:30: a rounded -P7D bubbles to -P1W through the skipped reading (resolved forward: compatible)
+              5 * H,          \* local midnight of the 23 h day of the DST zone
               -86400 - 6 * H, 7 * H - 1800, 7 * H, 12 * H, 86400 + 6 * H, 86400 + 12 * H,   \* (the last one: two wall days after the skipped day - one day back lands on it)
               20 * 86400 - 12 * H, 20 * 86400 + 6 * H, 19 * 86400 + 5 * H + 1800, -30 * 86400 + 3 * H}
 QOpts == {o \in MCOpts : o.mode \in {"halfExpand", "ceil", "trunc"} /\ o.inc \in {1, 2}}
